@@ -77,7 +77,9 @@ def homothety_rule_contract(interp, fi, args, kwargs):
                       A.Ww(r.arr, 0, n) == A.Ww(a0, 0, n0), A.Wc(r.arr, 0, n) == A.Wc(a0, 0, n0),
                       z3.Implies(A.chain_ok(a0, n0), z3.And(A.chain_ok(r.arr, n), ends_kept(r.arr, n, a0, n0))),
                       z3.Implies(z3.And(A.chain_ok(a0, n0), n0 >= 1), hom_nf(r.arr, n)),
-                      z3.Implies(no_identity(a0, n0), no_identity(r.arr, n)), A.lem_empty(r.arr, 0)))
+                      z3.Implies(no_identity(a0, n0), no_identity(r.arr, n)), A.lem_empty(r.arr, 0),
+                      # relocating / merging scalar factors does not change the relative order of the other operators
+                      A.pot(r.arr, n) <= A.pot(a0, n0), A.pot(r.arr, n) >= 0))
     return B.PyList(None, seq=r)
 
 
@@ -92,7 +94,7 @@ def scan_loop_specs(ghost):
         arr = A.arr_of(L.run, ops)
         n = to_z3(ops.length)
         idx = to_z3(L.var('index'))
-        return z3.And(idx >= 0, n >= 0,
+        return z3.And(idx >= 0, n >= 0, A.pot(arr, n) >= 0,
                       A.Ww(arr, 0, n) == ghost['W0w'], A.Wc(arr, 0, n) == ghost['W0c'],        # C01
                       A.chain_ok(arr, n),
                       z3.Implies(n >= 1, z3.And(A.outs(arr[0]) == ghost['outs0'], A.ins(arr[n - 1]) == ghost['ins0'])),
@@ -110,7 +112,14 @@ def scan_loop_specs(ghost):
         return z3.ForAll([m], z3.Implies(z3.And(m >= 0, m < to_z3(L.k)),
                                          z3.Not(z3.And(A.Chk(A.REG[m], left, right), A.Apl(A.REG[m], left, right)))))
 
-    return {(f'{RULES}.AlgebraicReductionRule.apply', 0): LoopSpec(inv_while, havoc_while, name='scan'),
+    def variant(L):
+        ops = lst(L)
+        arr = A.arr_of(L.run, ops)
+        n = to_z3(ops.length)
+        return (n, A.pot(arr, n), n - to_z3(L.var('index')))
+
+    return {(f'{RULES}.AlgebraicReductionRule.apply', 0): LoopSpec(inv_while, havoc_while, name='scan',
+                                                                  variant=variant if ghost.get('termination') else None),
             (f'{RULES}.AlgebraicReductionRule.apply', 1): LoopSpec(inv_for, lambda L: None, name='registry',
                                                                   unchanged=('operands', 'index'))}
 
@@ -118,7 +127,7 @@ def scan_loop_specs(ghost):
 def scan(ck, T, prop):
     """obligations of AlgebraicReductionRule.apply for property `prop` ('C01' or 'C07')"""
     P = ck.P
-    ghost = {}
+    ghost = {'termination': prop == 'C01'}
 
     def body(S):
         S.oracle = ORACLE[prop]
